@@ -16,7 +16,9 @@
     (the waiter is in the queue in neither case) - unlike pool.go, where a context is cancelled
     outside the mutex.
     The reader keeps the slot mutex from NextResultCh to FinishResult: an explicit lock tenure
-    ([rlock]); [Signal] / [Broadcast] after an unlock are separate steps.
+    ([rlock]); [Signal] / [Broadcast] after an unlock are separate steps.  NextWriteCmd uses TryLock
+    (repair D15): [WNext] is the call that got the mutex, [WNextBusy] the call that did not; the
+    code as found is the system without the label [WNextBusy] (there [WNext] blocks while [rlock]).
 
     Counters are uint32 in the code: [write], [read1], [read2] are kept modulo 2^32 and the slot
     index is [counter land (2^k - 1)].  [nw], [n1], [n2], [fillseq], [wseq], [rseq], [recv] are
@@ -74,7 +76,8 @@ Inductive label :=
 | RNext
 | RDeliver (p : nat)
 | RUnlock
-| RSignal (o : option nat).
+| RSignal (o : option nat)
+| WNextBusy.  (* NextWriteCmd found the slot mutex busy (TryLock failed): it returns nothing, like an empty slot *)
 
 Fixpoint memb (x : nat) (l : list nat) : bool :=
   match l with [] => false | y :: r => Nat.eqb x y || memb x r end.
@@ -236,6 +239,10 @@ Definition lstep (k : nat) (st : state) (l : label) : option state :=
           end
       | _ => None
       end
+  | WNextBusy =>
+      (* r.read1++; TryLock fails; r.read1--; return: no state change.  No guard on the lock: the recorded
+         position of this lock-free event need not be the instant of the failed TryLock. *)
+      match wpc st with WIdle => Some st | _ => None end
   end.
 
 Fixpoint run (k : nat) (ls : list label) (st : state) : option state :=
@@ -317,7 +324,7 @@ Inductive case :=
 Definition dec_label (kind p s : nat) : label :=
   match kind with
   | 0 => PutTicket | 1 => PutLock p s | 2 => PutBcast p s | 3 => WNext | 4 => WWaitEnter | 5 => WWaitRetry
-  | 6 => RNext | 7 => RDeliver p | 8 => RUnlock | 9 => RSignal None | _ => RSignal (Some p)
+  | 6 => RNext | 7 => RDeliver p | 8 => RUnlock | 9 => RSignal None | 10 => RSignal (Some p) | _ => WNextBusy
   end.
 
 Definition dec_opt (x : N) : option nat := if N.eqb x 0 then None else Some (N.to_nat (x - 1)).
